@@ -22,6 +22,10 @@ func checkC19(p *Prog, r *Report) {
 	ruleBits(p, r)
 	ruleOrigin(p, r, "C19")
 	ruleSiblings(p, r)
+	ruleFill(p, r)
+	ruleOffs(p, r)
+	r.Floor("FILL", 4)
+	r.Floor("OFFS", 3)
 	r.Floor("SIZEG", 4)
 	r.Floor("HAMMING", 2)
 	r.Floor("BITS", 4)
@@ -1003,4 +1007,274 @@ func ruleOrigin(p *Prog, r *Report, prop string) {
 			}
 		})
 	}
+}
+
+// ---- FILL: converters overwrite every element of the recycled buffer ---------------------------
+
+func innermostLoop(loops []*Loop, b *ssa.BasicBlock) *Loop {
+	var best *Loop
+	for _, l := range loops {
+		if l.Blocks[b] && (best == nil || len(l.Blocks) < len(best.Blocks)) {
+			best = l
+		}
+	}
+	return best
+}
+
+func ruleFill(p *Prog, r *Report) {
+	hash, err := p.HashEntries()
+	if err != nil {
+		r.Fatal(err.Error())
+		return
+	}
+	for _, f := range p.LibReach(hash) {
+		loops := findLoops(f)
+		type dstStore struct {
+			st  *ssa.Store
+			idx *Aff
+		}
+		byParam := map[*ssa.Parameter][]dstStore{}
+		eachInstr(f, func(_ *ssa.BasicBlock, _ int, in ssa.Instruction) {
+			st, ok := in.(*ssa.Store)
+			if !ok {
+				return
+			}
+			ia, ok := st.Addr.(*ssa.IndexAddr)
+			if !ok {
+				return
+			}
+			prm, ok := ia.X.(*ssa.Parameter)
+			if !ok {
+				return
+			}
+			sl, ok := prm.Type().Underlying().(*types.Slice)
+			if !ok || !isFloat(sl.Elem()) {
+				return
+			}
+			if innermostLoop(loops, st.Block()) == nil {
+				return
+			}
+			byParam[prm] = append(byParam[prm], dstStore{st, affineOf(ia.Index, 0)})
+		})
+		for prm, stores := range byParam {
+			// only gray converters: the function must also read image data (have an image-typed parameter)
+			isConv := false
+			for _, q := range f.Params {
+				ts := q.Type().String()
+				if strings.HasPrefix(ts, "*image.") || ts == "image.Image" {
+					isConv = true
+				}
+			}
+			if !isConv {
+				continue
+			}
+			key := fmt.Sprintf("%s | fill %s", fnName(f), prm.Name())
+			at := p.posStr(instrPos(stores[0].st))
+			bad := ""
+			inner := innermostLoop(loops, stores[0].st.Block())
+			offsets := map[int64]bool{}
+			var jphi *ssa.Phi
+			for _, s := range stores {
+				l := innermostLoop(loops, s.st.Block())
+				if l != inner {
+					bad = "stores into the destination are spread over different loops"
+					break
+				}
+				for _, latch := range l.Latch {
+					if !s.st.Block().Dominates(latch) {
+						bad = fmt.Sprintf("the store at %s is skipped on some iterations (a path reaches the next iteration without writing the element): the recycled buffer keeps data from an earlier image", p.posStr(instrPos(s.st)))
+					}
+				}
+				// inner induction variable = phi in the loop head with coefficient 1
+				for k, c := range s.idx.Terms {
+					if ph, ok := k.(*ssa.Phi); ok && ph.Block() == l.Head && c == 1 {
+						jphi = ph
+					}
+				}
+				offsets[s.idx.C] = true
+			}
+			if bad == "" {
+				if jphi == nil {
+					bad = "destination index does not advance with the innermost loop counter (coefficient 1)"
+				} else if ind, ok := inductionOf(jphi); !ok {
+					bad = "innermost loop counter is not a counted induction variable"
+				} else {
+					for c := int64(0); c < ind.Step; c++ {
+						if !offsets[c] {
+							bad = fmt.Sprintf("inner loop advances by %d but offset +%d is never written", ind.Step, c)
+						}
+					}
+					if int64(len(offsets)) != ind.Step {
+						bad = fmt.Sprintf("inner loop advances by %d but %d distinct offsets are written", ind.Step, len(offsets))
+					}
+					if k, ok := ind.Init.isConst(); !ok || k != 0 {
+						bad = "inner loop does not start at 0"
+					}
+					// row term: the remaining term must be (outer counter * bound of inner loop)
+					rest := stores[0].idx.clone()
+					delete(rest.Terms, jphi)
+					rest.C = 0
+					if len(rest.Terms) != 1 {
+						bad = "destination index is not row*width + column: " + stores[0].idx.String()
+					} else {
+						for k, c := range rest.Terms {
+							mul, ok := k.(*ssa.BinOp)
+							if !ok || mul.Op != token.MUL || c != 1 {
+								bad = "destination row term is not outer counter * width: " + stores[0].idx.String()
+								break
+							}
+							var outer *ssa.Phi
+							var width ssa.Value
+							if ph, ok := mul.X.(*ssa.Phi); ok {
+								outer, width = ph, mul.Y
+							} else if ph, ok := mul.Y.(*ssa.Phi); ok {
+								outer, width = ph, mul.X
+							}
+							if outer == nil {
+								bad = "destination row term has no loop counter"
+								break
+							}
+							oind, ok := inductionOf(outer)
+							if !ok || oind.Step != 1 || oind.Bound == nil || ind.Bound == nil {
+								bad = "outer loop is not a unit-step counted loop"
+								break
+							}
+							w := affineOf(width, 0)
+							if !w.equal(ind.Bound) || !w.equal(oind.Bound) || ind.Op != token.LSS || oind.Op != token.LSS {
+								bad = fmt.Sprintf("row stride %s, inner bound %s and outer bound %s are not the same width", w, ind.Bound, oind.Bound)
+							}
+							if k0, ok := oind.Init.isConst(); !ok || k0 != 0 {
+								bad = "outer loop does not start at 0"
+							}
+						}
+					}
+				}
+			}
+			if bad != "" {
+				r.Bad("FILL", key, at, bad)
+			} else {
+				r.OK("FILL", key, at, "every iteration writes dst[row*w + col] for row, col in [0,w): all w*w elements are overwritten")
+			}
+		}
+	}
+}
+
+// ---- OFFS: plane indexes come from the image's own offset methods -------------------------------
+
+var planeFields = map[string]string{"Pix": "PixOffset", "Y": "YOffset", "Cb": "COffset", "Cr": "COffset"}
+
+// planeOf: v is (a slice of) the load of field Pix/Y/Cb/Cr of an *image.T value → (field, the slice chain's low bounds)
+func planeOf(v ssa.Value) (field string, lows []ssa.Value, ok bool) {
+	for i := 0; i < 6; i++ {
+		switch x := v.(type) {
+		case *ssa.Slice:
+			if x.Low != nil {
+				lows = append(lows, x.Low)
+			}
+			v = x.X
+			continue
+		case *ssa.UnOp:
+			if x.Op != token.MUL {
+				return "", nil, false
+			}
+			fa, ok := x.X.(*ssa.FieldAddr)
+			if !ok {
+				return "", nil, false
+			}
+			n, ok := derefType(fa.X.Type()).(*types.Named)
+			if !ok || n.Obj().Pkg() == nil || n.Obj().Pkg().Path() != "image" {
+				return "", nil, false
+			}
+			fn := fieldName(fa.X.Type(), fa.Field)
+			if _, ok := planeFields[fn]; !ok {
+				return "", nil, false
+			}
+			return fn, lows, true
+		}
+		return "", nil, false
+	}
+	return "", nil, false
+}
+
+func offsetExprOK(v ssa.Value, method string) (bool, string) {
+	a := affineOf(v, 0)
+	hasMethod, hasStride := false, false
+	for k := range a.Terms {
+		val, ok := k.(ssa.Value)
+		if !ok {
+			continue
+		}
+		if c, ok := val.(*ssa.Call); ok {
+			if sc := c.Call.StaticCallee(); sc != nil && sc.Name() == method && sc.Pkg != nil && sc.Pkg.Pkg.Path() == "image" {
+				hasMethod = true
+			}
+		}
+		if mul, ok := val.(*ssa.BinOp); ok && mul.Op == token.MUL {
+			for _, o := range []ssa.Value{mul.X, mul.Y} {
+				if u, ok := o.(*ssa.UnOp); ok && u.Op == token.MUL {
+					if fa, ok := u.X.(*ssa.FieldAddr); ok && strings.HasSuffix(fieldName(fa.X.Type(), fa.Field), "Stride") {
+						hasStride = true
+					}
+				}
+			}
+		}
+	}
+	if hasMethod || hasStride {
+		return true, ""
+	}
+	return false, a.String()
+}
+
+func ruleOffs(p *Prog, r *Report) {
+	hash, err := p.HashEntries()
+	if err != nil {
+		r.Fatal(err.Error())
+		return
+	}
+	n := 0
+	for _, f := range p.LibReach(hash) {
+		eachInstr(f, func(_ *ssa.BasicBlock, _ int, in ssa.Instruction) {
+			var base, idx ssa.Value
+			switch x := in.(type) {
+			case *ssa.IndexAddr:
+				base, idx = x.X, x.Index
+			case *ssa.Slice:
+				// slicing a plane with a computed low bound is plane arithmetic too
+				if x.Low == nil {
+					return
+				}
+				if _, isConst := x.Low.(*ssa.Const); isConst {
+					return
+				}
+				base, idx = x.X, x.Low
+			default:
+				return
+			}
+			field, lows, ok := planeOf(base)
+			if !ok {
+				return
+			}
+			n++
+			key := fmt.Sprintf("%s | index %s", fnName(f), field)
+			at := p.posStr(instrPos(in))
+			method := planeFields[field]
+			all := append([]ssa.Value{idx}, lows...)
+			okAny := false
+			detail := ""
+			for _, v := range all {
+				if ok, d := offsetExprOK(v, method); ok {
+					okAny = true
+				} else {
+					detail = d
+				}
+			}
+			if okAny {
+				r.OK("OFFS", key, at, "index derives from "+method+" / the plane's stride")
+			} else {
+				r.Bad("OFFS", key, at, fmt.Sprintf("plane %s is indexed with hand-written arithmetic %s that uses neither %s nor the stride: wrong pixels for images whose stride exceeds the row width or whose rectangle does not start at the origin", field, detail, method))
+			}
+		})
+		// raw planes handed to body-less (assembly) functions are PLANE's business (C20)
+	}
+	r.Extra("offs_sites", n)
 }
